@@ -114,7 +114,7 @@ def run(cx):
         sigset = cx.assigns(f, r'^Option::Some\(Box::new\(|^Option::Some\(', place=None)
         sigset = [s for s in sigset if 'TSIG' in s.term or 'Record::map' in s.term]
         edns = [s for s in cx.assigns(f, r'^Option::Some\(', place=None) if 'Edns' in s.term or 'into<Edns>' in s.term]
-        NOSIG = r'^!ok\(var\(sig\)\)$|^!ok\(phi\(Option::None\|Option::Some\(.*\)\)\)$'
+        NOSIG = r'^!ok\(var\(\w+\)\)$|^!ok\(phi\(Option::None\|Option::Some\(.*\)\)\)$'
         cx.guard('C13.G4', pushes + sigset + edns, {'no-record-after-signature': NOSIG}, fn=f)
         cx.floor('C13.G4', len(pushes), 3, 'record pushes in read_records')
         cx.check('C13.G4', len(sigset) >= 1, f.path, 'sites', 'signature-capture-present', str(len(sigset)))
@@ -130,7 +130,7 @@ def run(cx):
         cx.check('C13.P2', len(snd) == 1 and len(sg) == 1 and len(ss) == 1, f.path, 'calls', 'send/sign/set_signature', f'{len(snd)}/{len(sg)}/{len(ss)}')
         if snd and ss and sg:
             # with a signer present, send is reached only through set_signature (sign Ok); sign Err / encode Err go to send_error_response(ServFail)
-            HAS = [s for bb in range(len(f.blocks)) for s, ps in f.edge_props(bb).items() if any(re.search(r'^ok\(.*@Ready\.0\.1\)$|^ok\(var\(signer\)\)$|^ok\(phi\(.*\)\)$', shorten(p)) and 'update' in shorten(p) or re.search(r'^ok\(var\(signer\)\)$', shorten(p)) for p in ps)]
+            HAS = [s for bb in range(len(f.blocks)) for s, ps in f.edge_props(bb).items() if any(re.search(r'^ok\(.*@Ready\.0\.1\)$|^ok\(var\(\w+\)\)$|^ok\(phi\(.*\)\)$', shorten(p)) and 'update' in shorten(p) or re.search(r'^ok\(var\(\w+\)\)$', shorten(p)) for p in ps)]
             sgb = {x.bb for x in sg}
             cx.must_pass('C13.P2', f, snd, via_blocks={x.bb for x in ss}, start_blocks=list(sgb), what='signed-before-send')
             cx.guard('C13.P2', ss, {'sign-ok': r'^ok\(TSigResponseContext::sign\('}, fn=f)
